@@ -42,7 +42,7 @@ def main():
         "hooks": {
             "guard": "SHARK_VERIF_HOOKS",
             "enable": "harness translation units are compiled with -DSHARK_VERIF_HOOKS against /repo/include (see tools/vlib.py CXXFLAGS); the library itself needs no rebuild for header-only hooks",
-            "baseline_off_cmd": "cd /repo && cmake --build _build -j16 && ctest --test-dir _build -j8 --timeout 900",
+            "baseline_off_cmd": "cd /repo && (cmake --build _build -j16 -- -k 0; ctest --test-dir _build -j8 --timeout 900)",
             "source_commits": [],
             "add_only": True,
         },
